@@ -1,0 +1,17 @@
+//go:build verif
+
+package dbkit
+
+// verifHook, when set, is called by the semaphore (build tag "verif" only).
+var verifHook func(point string, args ...interface{})
+
+// VerifSetHook installs (or, with nil, removes) the hook.
+func VerifSetHook(h func(point string, args ...interface{})) {
+	verifHook = h
+}
+
+func verifAt(point string, args ...interface{}) {
+	if h := verifHook; h != nil {
+		h(point, args...)
+	}
+}
